@@ -32,6 +32,8 @@ Deviations == { "StaleProbeReinserts",  \* a probe of a replaced target object r
                 "WaitAfterClose",       \* a caller registers as waiter after Close
                 "TimeoutLeaks",         \* timeout leaves the waiter in the table
                 "DetectNoWake",         \* detector tick does not wake waiters
+                "RebuildOnlyOnChange",  \* check rebuilds the live list only when the probed target's alive flag changed (a target a failed
+                                        \* call already marked dead then stays in the list)
                 "SpuriousRebuild" }     \* check rebuilds the live list (new order, cursor reset) although the live set did not change
 ASSUME Dev \subseteq Deviations
 DevChoice(d) == IF d \in Dev THEN (IF DevForced THEN {TRUE} ELSE BOOLEAN) ELSE {FALSE}
@@ -118,7 +120,9 @@ ProbeEffect(a, g, dReinsert, dNoWake) ==
        IN
        /\ talive' = ta
        /\ lat' = [x \in Addrs |-> IF x \in targets /\ ~ta[x] THEN MaxLat ELSE lat[x]]
-       /\ IF live # {}
+       /\ IF "RebuildOnlyOnChange" \in Dev /\ ta[a] = talive[a]
+            THEN UNCHANGED <<lastSet, list, pos, rrHist, cst, waiters>>
+          ELSE IF live # {}
             THEN /\ IF live # lastSet \/ "SpuriousRebuild" \in Dev
                       THEN /\ lastSet' = live
                            /\ list' \in Perms(live)
@@ -335,6 +339,9 @@ WaitersAreWaiting == \A k \in waiters : cst[k] = "waiting"
 DetectReleases == [][dflip' # dflip => ((fallback = 0 /\ list # <<>>) => waiters' = {})]_vars
 \* so does the completion of a probe that leaves a live list
 ProbeReleases == [][(probes' # probes /\ dflip' = dflip /\ Cardinality(probes') < Cardinality(probes)) => ((fallback = 0 /\ list' # <<>>) => waiters' = {})]_vars
+\* a probe of a current target that finds it down leaves it out of the live list
+ProbeDropsDead ==
+    [][\A a \in Addrs : (<<a, gen>> \in probes /\ <<a, gen>> \notin probes' /\ a \in targets /\ ~talive'[a]) => a \notin Range(list')]_vars
 ErrKinds == \A k \in Callers : cst[k] = "done" => cerr[k] \in {"none", "shutdown", "timeout", "dial"}
 ClosedFailsAtOnce == [][\A k \in Callers : (closed /\ cst[k] = "idle" /\ cst'[k] # "idle") => (cst'[k] = "done" /\ cerr'[k] = "shutdown")]_vars
 \* liveness (fair detector/probes): waiters are released once a target is live and no fallback is in force; Close releases them
